@@ -121,6 +121,10 @@ class ImageWriter:
         elif self._is_jbig2_iamge(image):
             name = self._save_jbig2(image)
 
+        elif not (isinstance(width, int) and isinstance(height, int)):
+            msg = "Image size %r x %r is not a pair of integers" % (width, height)
+            raise PDFValueError(msg)
+
         elif image.bits == 1:
             name = self._save_bmp(image, width, height, (width + 7) // 8, image.bits)
 
@@ -224,10 +228,25 @@ class ImageWriter:
         bits: int,
     ) -> str:
         """Save a BMP encoded image"""
+        data = image.stream.get_data()
+        if (
+            not isinstance(width, int)
+            or not isinstance(height, int)
+            or width <= 0
+            or height <= 0
+            or bytes_per_line > len(data)
+            or height > len(data)
+        ):
+            # not integers, or more rows / a longer row than there is data at all
+            msg = "Image data (%d bytes) does not match its geometry %r x %r" % (
+                len(data),
+                width,
+                height,
+            )
+            raise PDFValueError(msg)
         name, path = self._create_unique_image_name(image, ".bmp")
         with open(path, "wb") as fp:
             bmp = BMPWriter(fp, bits, width, height)
-            data = image.stream.get_data()
             i = 0
             for y in range(height):
                 bmp.write_line(y, data[i : i + bytes_per_line])
